@@ -104,8 +104,17 @@ func (h *memoHarness) Gen(r *Rand, tier string, clean bool) any {
 	if r.Bool() {
 		u := c.U[r.Intn(len(c.U))]
 		if u[0] < 4 {
-			c.U = append(c.U, TSpec{c.U[r.Intn(len(c.U))][0], u[1], u[0]})
-			c.Pre = append(c.Pre, len(c.U)-1)
+			nt := TSpec{c.U[r.Intn(len(c.U))][0], u[1], u[0]}
+			dup := false
+			for _, x := range c.U {
+				if tripleKey(x.Triple()) == tripleKey(nt.Triple()) {
+					dup = true
+				}
+			}
+			if !dup {
+				c.U = append(c.U, nt)
+				c.Pre = append(c.Pre, len(c.U)-1)
+			}
 			for _, m := range pickDistinct(r, NumLookups, 4) {
 				pool = append(pool, LookupCall{M: m, S: u[0], P: u[1], O: u[0]})
 			}
